@@ -366,7 +366,7 @@ class Ctx:
             cov['evaluations'] = max(cov['evaluations'], 1)
         evdir = os.environ.get('VERIF_EVIDENCE_DIR') or os.path.join(VERIF, 'evidence')
         os.makedirs(evdir, exist_ok=True)
-        p = os.path.join(evdir, self.prop + '.json')
+        p = os.path.join(evdir, self.prop + ('.replay.json' if self.replay else '.json'))
         with open(p + '.tmp', 'w') as f:
             json.dump(ev, f, indent=1, default=str)
         os.replace(p + '.tmp', p)
